@@ -1470,13 +1470,14 @@ def _perturb_string(tok, rng):
     return repr(nv)
 
 
-def mutate_repr(text, rng, max_changes=3):
+def mutate_repr(text, rng, max_changes=3, numbers=True):
     """Perturb 1..max_changes numeric / string literals of a repr text.  Returns (new_text, n_changed)."""
     try:
         toks = list(tokenize.generate_tokens(io.StringIO(text).readline))
     except (tokenize.TokenError, IndentationError, SyntaxError):
         return None, 0
-    idx = [i for i, t in enumerate(toks) if t.type in (tokenize.NUMBER, tokenize.STRING)]
+    kinds = (tokenize.NUMBER, tokenize.STRING) if numbers else (tokenize.STRING,)
+    idx = [i for i, t in enumerate(toks) if t.type in kinds]
     if not idx:
         return None, 0
     k = int(rng.integers(1, max_changes + 1))
@@ -1551,4 +1552,4 @@ def compose(rng, gens):
         return Val(val, "compose:shared-in-dict", kind="composite", info={"shared": 1, "fc": fc})
     fc2 = small_circuit(rng).freeze()
     val = [cirq.CircuitOperation(fc2), outer.freeze(), [cirq.CircuitOperation(fc2, repetitions=3), {"x": op_mid, "y": fc2}], nest(2)]
-    return Val(val, "compose:two-shared", kind="composite", info={"shared": 2, "fc": fc})
+    return Val(val, "compose:two-shared", kind="composite", info={"shared": 2, "fc": fc, "exact": False})
